@@ -92,9 +92,31 @@ void harness::run_case(const eng::Raw& raw, eng::Ctx& ctx)
 	//                          indep sup abl split symmiss degen
 	const std::vector<int> w = {4,    2,  4,  4,    1,      1};
 	gen::NfaPairCase c = gen::decode_nfa_pair(raw, maxStates, 3, w);
-	ctx.describe(gen::describe_nfa_pair(c));
+	// LARGE flavour (1/16): each operand gets an extra, non-final start state heading a chain that ends in a final state
+	// (lengths 10..270, so hash containers of the library get rehashed; several start states, only some of them final)
+	const bool large = (c.header[0] / 64) % 16 == 7;
+	if (large) {
+		auto pad = [&](ref::NFA& x, int& n, uint32_t seed) {
+			const int len = 10 + static_cast<int>(seed % 261);
+			const int sym = static_cast<int>((seed / 512) % static_cast<uint32_t>(c.ns));
+			const int first = n;
+			for (int i = 0; i < len; ++i) x.edges.insert(std::make_tuple(first + i, sym, first + i + 1));
+			x.starts.insert(first);
+			x.finals.insert(first + len);
+			n = first + len + 1;
+		};
+		pad(c.A, c.nA, c.header[6] + 13);
+		pad(c.B, c.nB, c.header[6] * 7 + c.header[5]);
+		if (c.header[5] % 2) c.A.finals.insert(c.A.starts.begin(), c.A.starts.end());      // A accepts the empty word
+		c.numA = gen::make_numbering(c.header[4], c.nA, false);
+		c.numB = gen::make_numbering(c.header[5], c.nB, false);
+	}
+	if (large) ctx.describe("large flavour: A " + std::to_string(c.A.states().size()) + " states, B " + std::to_string(c.B.states().size()) + " states; seeds " +
+		std::to_string(c.header[4]) + "," + std::to_string(c.header[5]) + "," + std::to_string(c.header[6]) + "\nA " + c.A.str().substr(0, 300) + "\nB " + c.B.str().substr(0, 300));
+	else ctx.describe(gen::describe_nfa_pair(c));
+	if (large) ctx.tag("large:chains-of-10-270-states");
 	ctx.tag(std::string("strategy:") + gen::nstrategy_name(c.strategy));
-	ctx.small_case(c.A.states().size() <= 8 && c.B.states().size() <= 8);
+	ctx.small_case(!large && c.A.states().size() <= 8 && c.B.states().size() <= 8);
 
 	ref::NfaInclResult expect = ref::nfa_included(c.A, c.B);
 	if (expect.verdict == ref::Tri::UNKNOWN) { ctx.inconclusive("oracle-cap"); return; }
